@@ -1,7 +1,7 @@
 (* C12 — flag, enum and fixed-point codecs are exact on their whole domain.
    Only statements, each closed by [exact <lemma>] with Print Assumptions beneath. *)
 From Coq Require Import NArith List Bool String.
-From RC Require Import lib.Result model.Flags model.Enums proofs.Flags_proofs
+From RC Require Import lib.Result lib.Utf8 proofs.Utf8_inverse model.Flags model.Enums proofs.Flags_proofs
   gen.GenFlags gen.GenEnums proofs.C12_proofs
   lib.Bytes model.Scalars gen.GenScalars proofs.C12_scalars.
 Local Open Scope N_scope.
@@ -107,3 +107,16 @@ Theorem C12_ai_script_distinct_numbers_distinct_values :
   forall n m a, ai_decode n = Ok a -> ai_decode m = Ok a -> n = m.
 Proof. exact ai_decode_injective. Qed.
 Print Assumptions C12_ai_script_distinct_numbers_distinct_values.
+
+(* the rich -> number -> rich direction for AI scripts: whatever number a script is written as decodes again, to a script of
+   the same name (a known member when the four bytes are a member's tag).  It rests on the encode-then-decode direction of the
+   UTF-8 round trip for ALL code points (proofs/Utf8_inverse.v), the other direction being proofs/Utf8_proofs.v *)
+Theorem C12_ai_script_rich_to_number_and_back :
+  forall a n, ai_encode a = Ok n -> exists a', ai_decode n = Ok a' /\ ai_name_of a' = ai_name_of a.
+Proof. exact ai_rich_to_number_and_back. Qed.
+Print Assumptions C12_ai_script_rich_to_number_and_back.
+
+Theorem C12_utf8_encode_then_decode_is_the_identity :
+  forall s bs, Utf8.utf8_encode s = Ok bs -> Utf8.utf8_decode bs = Ok s.
+Proof. exact Utf8_inverse.utf8_encode_decode. Qed.
+Print Assumptions C12_utf8_encode_then_decode_is_the_identity.
